@@ -589,9 +589,15 @@ def field_shapes(ctx):
             'faces_y': ('cells', 'nodes', 'cells'),
             'faces_z': ('cells', 'cells', 'nodes')}
     from ..core.template import find
-    nn = find('_n_ = (self.h[0].size + 1, self.h[1].size + 1, '
-              'self.h[2].size + 1)', init)
-    cc = find('_c_ = (self.h[0].size, self.h[1].size, self.h[2].size)', init)
+    NN = ['_n_ = (self.h[0].size + 1, self.h[1].size + 1, '
+          'self.h[2].size + 1)',
+          '_n_ = tuple((_v_.size + 1 for _v_ in self.h))',
+          '_n_ = tuple((self.h[_v_].size + 1 for _v_ in range(3)))']
+    CC = ['_c_ = (self.h[0].size, self.h[1].size, self.h[2].size)',
+          '_c_ = tuple((_v_.size for _v_ in self.h))',
+          '_c_ = tuple((self.h[_v_].size for _v_ in range(3)))']
+    nn = [m_ for p_ in NN for m_ in find(p_, init)]
+    cc = [m_ for p_ in CC for m_ in find(p_, init)]
     ctx.anchor(len(nn) == 1 and len(cc) == 1, 'node / cell count tuples in '
                'BaseMesh.__init__')
     nm = {'nodes': nn[0][1]['_n_'], 'cells': cc[0][1]['_c_']}
@@ -602,10 +608,8 @@ def field_shapes(ctx):
                   f'shape of {k} is not ({", ".join(kinds)}): the staggered '
                   'location of this component changed', ctx.where(me, init))
     ctx.check('C02.O5.shapes', 'BaseMesh node/cell counts',
-              has('_n_ = (self.h[0].size + 1, self.h[1].size + 1, '
-                  'self.h[2].size + 1)', init) and
-              has('_c_ = (self.h[0].size, self.h[1].size, self.h[2].size)',
-                  init), 'nodes = cells + 1 does not hold',
+              len(nn) == 1 and len(cc) == 1,
+              'nodes = cells + 1 does not hold',
               ctx.where(me, init))
     fm = ctx.repo.mod('emg3d/fields.py')
     for comp, sl in (('fx', 'self._field[:_i_]'),
